@@ -9,6 +9,7 @@ REPO = os.environ.get("LM_REPO", "/repo")
 CACHE = os.path.join(VERIF, ".cache")
 DRIVER = os.path.join(VERIF, "driver", "target", "release", "lmfacts")
 EXPECTED = ["lightmotif.rlib", "lightmotif_io.rlib", "lightmotif_tfmpvalue.rlib", "lightmotif_py.cdylib"]
+AARCH64 = "aarch64-unknown-linux-gnu"
 MEMBERS = ["lightmotif", "lightmotif-io", "lightmotif-tfmpvalue", "lightmotif-py", "lightmotif-bench"]
 
 
@@ -42,12 +43,17 @@ def tree_hash(repo=REPO, extra=()):
 
 def driver_sources():
     d = os.path.join(VERIF, "driver", "src")
-    return [os.path.join(d, f) for f in sorted(os.listdir(d)) if f.endswith(".rs")]
+    out = [os.path.join(d, f) for f in sorted(os.listdir(d)) if f.endswith(".rs")]
+    # the pickled database embeds the result of the load-time inliner: key the cache on its inputs too
+    for extra in (os.path.join(VERIF, "baseline_fns.json"), os.path.join(VERIF, "lm", "inline.py"), os.path.join(VERIF, "lm", "db.py")):
+        if os.path.exists(extra):
+            out.append(extra)
+    return out
 
 
 def build_driver():
     if not os.path.exists(DRIVER) or any(
-        os.path.getmtime(s) > os.path.getmtime(DRIVER) for s in driver_sources()
+        os.path.getmtime(s) > os.path.getmtime(DRIVER) for s in driver_sources() if s.endswith(".rs")
     ):
         r = subprocess.run(
             ["cargo", "build", "--release", "--offline"],
@@ -59,8 +65,8 @@ def build_driver():
             raise ExtractError("driver build failed:\n" + r.stderr[-4000:])
 
 
-def _clean_member_fingerprints(target):
-    fp = os.path.join(target, "debug", ".fingerprint")
+def _clean_member_fingerprints(target, triple=None):
+    fp = os.path.join(target, triple, "debug", ".fingerprint") if triple else os.path.join(target, "debug", ".fingerprint")
     if os.path.isdir(fp):
         for d in os.listdir(fp):
             base = d.rsplit("-", 1)[0]
@@ -77,13 +83,14 @@ def extract(config="default", repo=REPO, verbose=False):
     lock = open(os.path.join(CACHE, "extract.lock"), "w")
     fcntl.flock(lock, fcntl.LOCK_EX)
     try:
-        if os.path.isdir(out) and all(os.path.exists(os.path.join(out, e + ".json")) for e in EXPECTED):
+        exp = EXPECTED if config not in ("nodefault", "aarch64") else ["lightmotif.rlib"]
+        if os.path.isdir(out) and all(os.path.exists(os.path.join(out, e + ".json")) for e in exp):
             return out, th, False
         tmp = out + ".tmp"
         shutil.rmtree(tmp, ignore_errors=True)
         os.makedirs(tmp)
         target = os.path.join(CACHE, "target-" + config)
-        _clean_member_fingerprints(target)
+        _clean_member_fingerprints(target, AARCH64 if config == "aarch64" else None)
         env = dict(os.environ)
         env.update(
             LMFACTS_OUT=tmp,
@@ -98,6 +105,10 @@ def extract(config="default", repo=REPO, verbose=False):
             flags += " -Coverflow-checks=off"
         elif config == "nodefault":
             cmd = ["cargo", "+nightly", "check", "--offline", "-p", "lightmotif", "--no-default-features"]
+        elif config == "aarch64":
+            # the Arm (NEON) backend is cfg-excluded on this host: type-check the core crate for aarch64 with a locally built std
+            # (rust-src + the registry cache are enough, nothing is linked or run) so that its MIR can be analysed like the x86 arms
+            cmd = ["cargo", "+nightly", "check", "--offline", "-Zbuild-std=std", "--target", AARCH64, "-p", "lightmotif"]
         env["RUSTFLAGS"] = flags
         t0 = time.time()
         r = subprocess.run(cmd, cwd=repo, env=env, capture_output=True, text=True)
@@ -105,7 +116,6 @@ def extract(config="default", repo=REPO, verbose=False):
             sys.stderr.write(r.stderr[-2000:])
         if r.returncode != 0:
             raise ExtractError("cargo check through the driver failed (workspace does not compile?):\n" + r.stderr[-6000:])
-        exp = EXPECTED if config != "nodefault" else ["lightmotif.rlib"]
         missing = [e for e in exp if not os.path.exists(os.path.join(tmp, e + ".json"))]
         if missing:
             raise ExtractError("driver produced no fact file for: " + ", ".join(missing))
@@ -114,7 +124,7 @@ def extract(config="default", repo=REPO, verbose=False):
         # prune old fact dirs (keep the 6 most recent)
         base = os.path.join(CACHE, "facts")
         ds = sorted((os.path.getmtime(os.path.join(base, d)), d) for d in os.listdir(base))
-        for _, d in ds[:-6]:
+        for _, d in ds[:-8]:
             shutil.rmtree(os.path.join(base, d), ignore_errors=True)
         return out, th, True
     finally:
